@@ -67,6 +67,7 @@ fn step_str(s: &Step) -> String {
     match s {
         Step::A1 => "A1".into(),
         Step::A2 => "A2".into(),
+        Step::Fnc1 => "Fnc1".into(),
         Step::Seg(m, n) => format!("Seg:{}:{}", mode_name(*m), n),
         Step::FinalC40Exact(m, n) => format!("FinalC40Exact:{}:{}", mode_name(*m), n),
         Step::FinalC40Pad(m, n) => format!("FinalC40Pad:{}:{}", mode_name(*m), n),
@@ -86,6 +87,7 @@ fn step_from(s: &str) -> Option<Step> {
     Some(match p[0] {
         "A1" => Step::A1,
         "A2" => Step::A2,
+        "Fnc1" => Step::Fnc1,
         "Seg" => Step::Seg(mode_from(p[1])?, n(2)?),
         "FinalC40Exact" => Step::FinalC40Exact(mode_from(p[1])?, n(2)?),
         "FinalC40Pad" => Step::FinalC40Pad(mode_from(p[1])?, n(2)?),
@@ -144,7 +146,7 @@ impl ScriptCase {
 }
 
 fn is_final(s: &Step) -> bool {
-    !matches!(s, Step::A1 | Step::A2 | Step::Seg(..))
+    !matches!(s, Step::A1 | Step::A2 | Step::Fnc1 | Step::Seg(..))
 }
 
 pub fn check(c: &ScriptCase) -> Verdict {
@@ -195,7 +197,7 @@ pub fn check(c: &ScriptCase) -> Verdict {
     let mut big_b256 = false;
     for s in &c.steps {
         let m = match s {
-            Step::A1 | Step::A2 => continue,
+            Step::A1 | Step::A2 | Step::Fnc1 => continue,
             Step::Seg(m, n) => {
                 if *m == Mode::Base256 && *n >= 250 {
                     big_b256 = true;
@@ -219,7 +221,8 @@ pub fn check(c: &ScriptCase) -> Verdict {
     let fin = c.steps.last().filter(|s| is_final(s)).map(|s| step_str(s).split(':').next().unwrap().to_string());
     let nontrivial = modes.len() >= 2 || fin.is_some() || big_b256;
     let cls = format!("{:?}/{}/modes{}", c.header, fin.unwrap_or_else(|| if stream.len() > d.pad_start { "clean+pad".into() } else { "clean-full".into() }), modes.len());
-    Verdict::Pass(Pass::new(cls, nontrivial).count("big_base256", big_b256 as u64))
+    let fnc1_sep = c.steps.iter().filter(|s| matches!(s, Step::Fnc1)).count() as u64;
+    Verdict::Pass(Pass::new(cls, nontrivial).count("big_base256", big_b256 as u64).count("fnc1_separator_codewords", fnc1_sep))
 }
 
 // ---------------------------------------------------------------------------------------------
@@ -289,6 +292,11 @@ fn build(segs: Vec<SegRaw>, fin: u16, fin_seg: SegRaw, header: Header, cap_sel: 
     };
     let mut data: Vec<u8> = Vec::new();
     let mut steps: Vec<Step> = Vec::new();
+    let prefix_len0 = match header {
+        Header::None | Header::Latin1Str => 0,
+        Header::EciUtf8 => 2,
+        _ => 1,
+    };
     // lengths in codewords of everything after the header, and start offsets of EDIFACT groups
     let mut len_cw = 0usize;
     let mut edifact_group_starts: Vec<usize> = Vec::new();
@@ -301,7 +309,12 @@ fn build(segs: Vec<SegRaw>, fin: u16, fin_seg: SegRaw, header: Header, cap_sel: 
                 let n = 1 + pick(s.len, 8);
                 for i in 0..n {
                     let sd = s.seeds[i];
-                    if sd % 3 == 0 {
+                    if sd % 16 == 7 && cs != Charset::Latin1 && prefix_len0 + len_cw >= 2 {
+                        // FNC1 as field separator (not in the first or second position): decoded as GS
+                        data.push(29);
+                        steps.push(Step::Fnc1);
+                        len_cw += 1;
+                    } else if sd % 3 == 0 {
                         data.push(b'0' + sd % 10);
                         data.push(b'0' + (sd / 10) % 10);
                         steps.push(Step::A2);
